@@ -172,13 +172,28 @@ func (x *XmlNode) Find(start int, m meta.Definition) int {
 
 func (x *XmlNode) Choose(sel *node.Selection, choice *meta.Choice) (*meta.ChoiceCase, error) {
 	for _, c := range choice.Cases() {
-		for _, m := range c.DataDefinitions() {
-			if x.Find(0, m) >= 0 {
-				return c, nil
-			}
+		if x.hasAny(c.DataDefinitions()) {
+			return c, nil
 		}
 	}
 	return nil, nil
+}
+
+// hasAny is true when there is an element for any of the definitions, looking
+// thru nested choices because their members appear directly in the data
+func (x *XmlNode) hasAny(defs []meta.Definition) bool {
+	for _, m := range defs {
+		if nested, isChoice := m.(*meta.Choice); isChoice {
+			for _, c := range nested.Cases() {
+				if x.hasAny(c.DataDefinitions()) {
+					return true
+				}
+			}
+		} else if x.Find(0, m) >= 0 {
+			return true
+		}
+	}
+	return false
 }
 
 // Stubs non-reader funcs
